@@ -132,3 +132,13 @@ PROPS["C04"] = dict(
             "canonical-result assertions live in the C01, C03, C05, C07, C08, C09, C19 harnesses (check_int / is_canonical on every result)",
     trusted=STUBS_ADDSUB + ["stub: Vec::shrink_to_fit -> no-op"],
 )
+
+PROPS["C17"] = dict(
+    inject=[("src/bigint/serde.rs", "c17/serde.rs")],
+    kani=[dict(filter_q="c17_q_", filter_t=["c17_q_", "c17_t_"], jobs=14, timeout_q=240, timeout_t=900, features="serde", tgt="serde")],
+    functions=["Serialize for BigUint/BigInt/Sign", "Deserialize for BigUint (U32Visitor::visit_seq, cautious)", "Deserialize for BigInt/Sign"],
+    bounds_quick="serialise: values of 0..2 digits (3 thorough), both signs, through a recording Serializer (declared length, every element, tuple arity); "
+                 "deserialise: every u32 sequence of length 0..4 (0..6 thorough) with size hints {none, exact, too small, usize::MAX}; BigInt pairs with EVERY i8 sign byte",
+    outside="third-party Serializer/Deserializer implementations (serde's own contract is trusted); longer sequences",
+    trusted=["serde's de::value deserializers (U32Deserializer, I8Deserializer, SeqDeserializer) used to feed tokens", "stub: Vec::with_capacity -> empty growing vector; Vec::shrink_to_fit -> no-op"],
+)
